@@ -2,7 +2,7 @@ SPECIFICATION Spec
 CONSTANTS
   MaxRefs = 2
   Kinds = {"void", "copy", "move"}
-  Bodies = {"none", "destroyCtx", "dropOthers", "refinish"}
+  Bodies = {"none", "destroyCtx", "dropOthers", "refinish", "reThen"}
   MaxHist = 99
 INVARIANTS TypeOK AtMostOnce ValueSeen ExactlyOnce Released
 PROPERTIES NoRunAfterDeath
